@@ -42,9 +42,9 @@ class Crash(Exception):
 class Tracer:
     """records the file-system events of one operation; can die at event k (after j bytes of a write) or make event k fail"""
 
-    def __init__(self, crash_at=None, partial=None, fail_at=None):
+    def __init__(self, crash_at=None, partial=None, fail_at=None, flush=True):
         self.events = []  # (kind, path[, bytes | dst])
-        self.crash_at, self.partial, self.fail_at = crash_at, partial, fail_at
+        self.crash_at, self.partial, self.fail_at, self.flush = crash_at, partial, fail_at, flush
         self.fd_path = {}
 
     def ev(self, kind, path, extra=None):
@@ -109,7 +109,8 @@ class PFile:
             os._exit(17)
         self._tr.ev("write", self._path, data)
         n = self._f.write(s)
-        self._f.flush()
+        if self._tr.flush:
+            self._f.flush()
         return n
 
     def close(self):
@@ -242,13 +243,13 @@ def load_inps(path):
         return None
 
 
-def run_traced(hj, name, variant, crash_at=None, partial=None, fail_at=None, keep=False):
+def run_traced(hj, name, variant, crash_at=None, partial=None, fail_at=None, flush=True):
     """runs one scenario in a fresh scratch dir; returns (root, files, events) — in a crash run this only returns in the parent"""
     root = str(common.scratch_root() / f"c13-{uuid.uuid4().hex[:8]}")
     os.makedirs(root)
     op, files = setup_scenario(hj, name, root, variant)
     old = {f: open(f, "rb").read() for f in files}
-    tr = Tracer(crash_at, partial, fail_at)
+    tr = Tracer(crash_at, partial, fail_at, flush)
     if crash_at is not None:
         pid = os.fork()
         if pid == 0:
@@ -357,6 +358,19 @@ def scenario(ctx, hj, name, variant, name_stream, exhaustive_partials):
                 ctx.count("crash-points")
                 if bad and worst is None:
                     worst = (k, j, [(short(f), w) for f, w in bad])
+            finally:
+                shutil.rmtree(root, ignore_errors=True)
+    # --- the same kill points with Python's own buffering left alone (data of an unclosed file is lost at the kill):
+    #     this is where a rename that precedes the close shows on the real disk
+    if worst is None:
+        for k in range(len(events) + 1):
+            root, files2, old2, _ = run_traced(hj, name, variant, crash_at=k, partial=None, flush=False)
+            try:
+                bad = judge(files2, old2, {f2: new_inps[f] for f, f2 in zip(files, files2)})
+                ctx.case(name_stream, (name, variant, "unflushed", k), True)
+                ctx.count("crash-points-unflushed")
+                if bad and worst is None:
+                    worst = (k, "unflushed", [(short(f), w) for f, w in bad])
             finally:
                 shutil.rmtree(root, ignore_errors=True)
     if worst:
@@ -498,7 +512,8 @@ def replay(ctx, path):
         root, files, old, events = run_traced(hj, c["scenario"], c["variant"])
         new_inps = {f: load_inps(f) for f in files}
         shutil.rmtree(root, ignore_errors=True)
-        root, files2, old2, _ = run_traced(hj, c["scenario"], c["variant"], crash_at=c["crash_before_event"], partial=c["partial_bytes"])
+        unfl = c["partial_bytes"] == "unflushed"
+        root, files2, old2, _ = run_traced(hj, c["scenario"], c["variant"], crash_at=c["crash_before_event"], partial=None if unfl else c["partial_bytes"], flush=not unfl)
         bad = judge(files2, old2, {f2: new_inps[f] for f, f2 in zip(files, files2)})
         shutil.rmtree(root, ignore_errors=True)
     elif "failing_event" in c:
